@@ -30,7 +30,7 @@ ASSUMPTIONS = ['sim network = class-constant overrides only (max_target 2^255-1,
 REQUIRED_HITS = ['V1.valid_batch_stored', 'V2.invalid_batch_checked', 'V2.rule.link', 'V2.rule.bits', 'V2.rule.pow', 'V2.rule.genesis',
                  'V3.chain_validated', 'V4.genuine', 'V4.mismatch', 'V4.uncheckpointed', 'V5.retarget_checked', 'V5.clamp_low', 'V5.clamp_high',
                  'op.fork', 'op.fork_shorter_than_old_tail', 'op.extend_stale_tail', 'op.split', 'op.reconnect', 'op.beyond_tip', 'mainnet.accepted', 'mainnet.alteration_rejected',
-                 'W.cut_checked', 'W.overwrite_checked', 'W.cut_mid_header', 'W.damage.tip', 'W.damage.interior', 'W.real_persist']
+                 'W.cut_checked', 'W.overwrite_checked', 'W.cut_mid_header', 'W.damage.tip', 'W.damage.interior', 'W.damage.deep_below_tip', 'W.real_persist']
 MAXT = (1 << 255) - 1
 HS = 112
 _S = {}
@@ -71,7 +71,7 @@ def shard_setup(rec, tier):
     boot.import_lbry()
     from lbry.wallet.header import Headers
     r = random.Random(7000 + rec.shard + 1000 * rec.seed)
-    chain = build_chain(r, 1085)
+    chain = build_chain(r, 2160)      # 1000 checkpointed + up to 1160 above: repair must also reach damage deep below the tip
     _S['chain'] = chain
     _S['bytes'] = b''.join(chain)
     _S['genesis'] = R.header_hash_hex(chain[0])
@@ -125,6 +125,13 @@ def gen_cases(rng, tier, shard, nshards):
                         'seed': rng.getrandbits(32), 'real': t % 8 == 1})
     fams.append(cut)
     fams.append(ow)
+    # long tails (added after seeded break C07-D): damage more than 1000 headers below the tip is still above the checkpoint
+    deep = []
+    for j, (t, depth) in enumerate([(1050, 1049), (1100, 1001), (1100, 1000), (1100, 999), (1160, 1100), (1130, 1050), (1101, 1100), (1160, 580)]):
+        if j % nshards == shard % 8 or not q:
+            for kind in ['random', 'partial-link', 'partial-nonlink']:
+                deep.append({'fam': 'overwrite', 'tail': t, 'pos': f'depth:{depth}', 'kind': kind, 'seed': rng.getrandbits(32)})
+    fams.append(deep)
     # round-robin so that every family is reached early even when the budget is cut short on a loaded machine
     weights = {'overwrite': 12}
     while any(fams):
@@ -618,7 +625,11 @@ async def _fam_overwrite(rec, case):
     L = 1000 + tail
     tip = L - 1
     original = _S['bytes'][:L * HS]
-    d = {'first': 1000, 'interior': 1000 + tail // 2, 'tip-1': tip - 1, 'tip': tip}[pos]
+    if pos.startswith('depth:'):
+        d = tip - int(pos.split(':')[1])
+        rec.hit('W.damage.deep_below_tip')
+    else:
+        d = {'first': 1000, 'interior': 1000 + tail // 2, 'tip-1': tip - 1, 'tip': tip}[pos]
     if d < 1000:
         return
     b = bytearray(original)
